@@ -92,3 +92,71 @@ INTERP_EXT = {
     'cheb': _cheb, 'cmode': _cmode, 'modesum': _modesum, 'chebsum': _chebsum, 'cslset': _cslset, 'dct1': _dct1, 'dct1sum': _dct1sum,
     'sgnpow': _sgnpow, 'cstep2': _cstep2, 'ccchain': _ccchain, 'pi': lambda: math.pi, 'cos': lambda x: math.cos(float(x)),
 }
+
+
+def _chebscale(x, a, b):
+    x, a, b = float(x), float(a), float(b)
+    _need(a < b, 'chebscale of an empty box')
+    return min(1.0, max(-1.0, (x - (b + a) / 2) * (2 / (b - a))))
+
+
+def _mrow(Mx, i):
+    i = int(i)
+    _need(0 <= i < Mx.shape[0], 'mrow out of range')
+    return np.array([float(Mx[i, j]) if j < Mx.shape[1] else 0.0 for j in range(8)])       # a vector value: compared elementwise
+
+
+def _pcol(X, k):
+    return np.array([float(X[s][int(k)]) for s in range(8)])
+
+
+def _bsel(TA, s):
+    s = int(s)
+    _need(all(0 <= s < TA[k].shape[0] for k in range(8)), 'bsel row out of range')
+    return {k: _mrow(TA[k][s:s + 1, :], 0) for k in range(8)}
+
+
+INTERP_EXT.update({'chebscale': _chebscale, 'mrow': _mrow, 'pcol': _pcol, 'bsel': _bsel})
+
+
+def _wrap_sample():
+    """Values for the sort Array(Int, Mat) (a list of matrices with a common number of rows); other sorts fall through."""
+    import sys
+    import z3
+    from ttvc import theory as T
+    MA = z3.ArraySort(z3.IntSort(), T.Mat)
+    for mod in [m for n, m in list(sys.modules.items()) if n in ('__main__', 'lemmas.spotcheck') and hasattr(m, 'check_axiom') and hasattr(m, 'sample')]:
+        orig = mod.sample
+        if getattr(orig, '_mx_func', False):
+            continue
+
+        def sample(sort, rng, orig=orig):
+            if sort == MA:
+                r = int(rng.integers(1, 4))
+                return {k: rng.integers(-3, 4, size=(r, int(rng.integers(1, 4)))).astype(float) for k in range(8)}
+            return orig(sort, rng)
+
+        sample._mx_func = True
+        mod.sample = sample
+
+
+_wrap_sample()
+
+
+def _munf(G):
+    return np.transpose(G, [1, 0, 2]).reshape(G.shape[1], -1)
+
+
+def _mfold(Mx, r1, r2):
+    r1, r2 = int(r1), int(r2)
+    _need(r1 >= 1 and r2 >= 1 and Mx.shape[1] == r1 * r2, 'mfold of a matrix with the wrong number of columns')
+    return np.transpose(Mx.reshape(Mx.shape[0], r1, r2), [1, 0, 2])
+
+
+def _lsq(H, Mx):
+    import scipy.linalg
+    _need(H.shape[0] == Mx.shape[0], 'lstsq of operands with different row counts')
+    return scipy.linalg.lstsq(H, Mx)[0]
+
+
+INTERP_EXT.update({'munf': _munf, 'mfold': _mfold, 'lsqsol': _lsq})
